@@ -404,6 +404,13 @@ theorem wellTyped_any_aux (gen : Bool) (hws : w.SupU gen) :
           | some t' => rw [hty] at hv
                        exact ihn (sizeOf t') t' p.2 (by omega) (Nat.le_refl _) (hws.fieldsOK c f hf t' hty) hv
         | _ => simp [wellTyped] at hwt
+      | union ucs hn =>
+        cases x with
+        | none => simp [wellTypedAny]
+        | inst c fs =>
+          simp only [wellTyped, Bool.and_eq_true] at hwt
+          rw [wellTypedAny]; exact hwt.2
+        | _ => simp [wellTyped] at hwt
 
 theorem wellTyped_any (gen : Bool) (hws : w.SupU gen) {t : Ty} {x : Obj} (hs : t.supU gen = true)
     (h : wellTyped w t x = true) : wellTypedAny w x = true :=
@@ -613,6 +620,16 @@ theorem prim_aux (hws : w.SupU cfg.gen) :
           | none => simp only [wtField, hty] at hh; simp only [unField, hty]; exact ihA p.2 (by omega) hh
           | some t' => simp only [wtField, hty] at hh; simp only [unField, hty]
                        exact ihU (sizeOf t') t' p.2 (by omega) (Nat.le_refl _) (hws.fieldsOK c f hf t' hty) hh
+        | _ => simp [wellTyped] at hwt
+      | union ucs hn =>
+        have hun : un w cfg (.union ucs hn) x = unAny w cfg x := by simp only [un]
+        rw [hun]
+        refine hAny x hx ?_
+        cases x with
+        | none => simp [wellTypedAny]
+        | inst c fs =>
+          simp only [wellTyped, Bool.and_eq_true] at hwt
+          rw [wellTypedAny]; exact hwt.2
         | _ => simp [wellTyped] at hwt
 
 theorem un_prim (hws : w.SupU cfg.gen) {t : Ty} {x : Obj} (hs : t.supU cfg.gen = true) (h : wellTyped w t x = true) :
